@@ -25,6 +25,7 @@ import (
 	"runtime/debug"
 	"sort"
 	"strings"
+	"sync/atomic"
 	"syscall"
 	"testing"
 
@@ -32,6 +33,7 @@ import (
 	"github.com/synnaxlabs/synnax/pkg/distribution/ontology"
 	"github.com/synnaxlabs/x/errors"
 	"github.com/synnaxlabs/x/gorp"
+	"github.com/synnaxlabs/x/kv"
 	"github.com/synnaxlabs/x/kv/memkv"
 	"github.com/synnaxlabs/x/observe"
 	"github.com/synnaxlabs/x/query"
@@ -354,6 +356,9 @@ func genScript(t *rapid.T) Script {
 				op.Kind = "begin"
 			case rare(t, "abort", 5):
 				op.Kind = "abort"
+				if rare(t, "commit-refused", 3) {
+					op.Kind = "commitfail" // the storage engine refuses the commit: nothing may change
+				}
 			default:
 				op.Kind = "commit"
 			}
@@ -500,7 +505,7 @@ func (g *genState) apply(op Op) {
 		if g.inTx {
 			g.inTx, g.committed = false, g.cur
 		}
-	case "abort":
+	case "abort", "commitfail":
 		if g.inTx {
 			g.inTx, g.cur = false, g.committed
 		}
@@ -685,7 +690,31 @@ const parentOf = ontology.RelationshipTypeParentOf
 // services use several): the graph has to stay acyclic over relationships of all types.
 const memberOf = ontology.RelationshipType("member")
 
+// refuseCommitDB wraps the key-value store: while armed, the Commit of a transaction opened on
+// it returns an error and persists nothing.
+type refuseCommitDB struct {
+	kv.DB
+	armed atomic.Bool
+}
+
+var errCommitRefused = stderrors.New("verif: commit refused by the key-value store")
+
+func (d *refuseCommitDB) OpenTx() kv.Tx { return &refuseCommitTx{Tx: d.DB.OpenTx(), db: d} }
+
+type refuseCommitTx struct {
+	kv.Tx
+	db *refuseCommitDB
+}
+
+func (t *refuseCommitTx) Commit(ctx context.Context, opts ...any) error {
+	if t.db.armed.Load() {
+		return errCommitRefused
+	}
+	return t.Tx.Commit(ctx, opts...)
+}
+
 type sut struct {
+	refuse *refuseCommitDB
 	ctx   context.Context
 	db    *gorp.DB
 	otg   *ontology.Ontology
@@ -994,7 +1023,8 @@ func execute(sc Script, rep *kit.Report) (ret error) {
 	}
 	n := len(s.ids)
 	norm := func(i int) int { return ((i % n) + n) % n }
-	s.db = gorp.Wrap(memkv.New())
+	s.refuse = &refuseCommitDB{DB: memkv.New()}
+	s.db = gorp.Wrap(s.refuse)
 	otg, err := ontology.Open(ctx, ontology.Config{DB: s.db})
 	if err != nil {
 		_ = s.db.Close()
@@ -1057,6 +1087,24 @@ func execute(sc Script, rep *kit.Report) (ret error) {
 			committed = cur
 			rep.Class("tx-commit")
 			if err := s.checkTables(step, "after commit", s.db, committed); err != nil {
+				return err
+			}
+			continue
+		case "commitfail":
+			if s.tx == nil {
+				continue
+			}
+			s.refuse.armed.Store(true)
+			cerr := s.tx.Commit(ctx)
+			s.refuse.armed.Store(false)
+			_ = s.tx.Close()
+			s.tx = nil
+			if cerr == nil {
+				return kit.Fail("refused-commit-reported-success", "step %d: the key-value store refused the commit but Tx.Commit returned nil", step)
+			}
+			cur = committed
+			rep.Class("tx-commit-refused")
+			if err := s.checkTables(step, "after a refused commit", s.db, committed); err != nil {
 				return err
 			}
 			continue
